@@ -399,3 +399,130 @@ theorem loadres_alias_fresh_slice_partial (m : RM) (res : String) (ths : List UI
   by_cases h : ths.isEmpty = true <;> simp [h]
 
 end Sentinel.C04
+
+namespace Sentinel.C04
+open Sentinel.Iso
+
+/-! ## The `N + (P − 1)` bound over whole histories of the driver's full model
+
+`pre` is an arbitrary history (reloads, `poke` edits, ghosts of panicking exit handlers, earlier bursts, …); `body` continues it with
+anything **except** rule changes (`ruleOp`: `load`, `loadres`, `poke`): entries of any batch / resource type / traffic direction, exits in
+any order (with or without error, by one or two goroutines, after `when ok|err` handlers — all the same `Op.exit`), `pexit` ghosts, reads,
+and any number of bursts (`sched`/`par`) of at most `P` goroutines each, arbitrarily scheduled.  The gauge counts **entries** (one unit per
+admitted entry whatever its batch), so the allowance of the `P` goroutines between check and commit is `P − 1` units, not
+`(P − 1)·maxBatch`; `z = 0` when all batches are ≥ 1, `z = 1` otherwise. -/
+
+/-- **history-level overshoot bound**: if the bound `N + z + (P − 1)` holds for every rule `N` of every resource when `body` starts (e.g.
+    right after a load on an idle resource), it holds after every prefix of `body` — bursts do **not** compound — and the rule list is
+    the one `body` started with.  Many rules per resource: the bound holds for each of them, hence for the minimum. -/
+theorem overshoot_history (pre body : List Op) (z P : Nat) (hb : histSize (pre ++ body) < 2147483648)
+    (hrule : ∀ o ∈ body, ruleOp o = false) (hz : ∀ o ∈ body, batchOK z o) (hP : ∀ o ∈ body, burstWidth o ≤ P)
+    (h0 : ∀ res, ∀ r ∈ rulesOf (run {} pre).1.rules res, (run {} pre).1.gauge res ≤ (r.thr.toNat + z + (P - 1) : Nat)) :
+    ∀ p, p <+: body →
+      (run {} (pre ++ p)).1.rules = (run {} pre).1.rules ∧
+      ∀ res, ∀ r ∈ rulesOf (run {} pre).1.rules res, (run {} (pre ++ p)).1.gauge res ≤ (r.thr.toNat + z + (P - 1) : Nat) := by
+  intro p hp
+  obtain ⟨t, rfl⟩ := hp
+  have hb1 : histSize pre < 2147483648 := by rw [histSize_append] at hb; omega
+  have hb2 : histSize (pre ++ p) < 2147483648 := by rw [← List.append_assoc, histSize_append] at hb; omega
+  obtain ⟨⟨hr0, _, hg0, _⟩, _⟩ := reach pre [] hb1
+  obtain ⟨⟨hr1, _, hg1, _⟩, _⟩ := reach (pre ++ p) [] hb2
+  have hinv : BndInv z P (specRun {} pre).1 := by
+    intro res r hr
+    have := h0 res r (by rw [hr0]; exact hr)
+    rw [hg0] at this
+    exact_mod_cast this
+  have hsub : ∀ o ∈ p, o ∈ p ++ t := fun o ho => List.mem_append_left _ ho
+  obtain ⟨h1, h2⟩ := specRun_bnd z P p (specRun {} pre).1 (fun o ho => hrule o (hsub o ho))
+    (fun o ho => hz o (hsub o ho)) (fun o ho => hP o (hsub o ho)) hinv
+  rw [← specRun_append] at h1 h2
+  refine ⟨by rw [hr1, h2, hr0], ?_⟩
+  intro res r hr
+  rw [hg1]
+  have := h1 res r (by rw [h2, ← hr0]; exact hr)
+  exact_mod_cast this
+
+/-- the hypotheses are satisfiable: threshold 2, a reload and an in-place edit in `pre`, then a burst of 3, a ghost, exits, another burst -/
+example :
+    let pre : List Op := [.load [("a", 5)], .entry 1 "a" 1, .loadres true "a" [7, 3], .poke "a" 1 2]
+    let body : List Op := [.sched 10 "a" [1, 1, 1] [0, 1, 2, 0, 1, 2], .ghost 10, .exit 11, .exit 1, .sched 20 "a" [1, 1] [0, 1], .conc "a"]
+    (∀ o ∈ body, ruleOp o = true → False) ∧ (∀ o ∈ body, burstWidth o ≤ 3) ∧
+    rulesOf (run {} pre).1.rules "a" = [{ idx := 0, thr := 7 }, { idx := 1, thr := 2 }] ∧ (run {} pre).1.gauge "a" = 1 ∧
+    (run {} (pre ++ body)).2.getLast? = some (.val 2) := by
+  decide
+
+end Sentinel.C04
+
+namespace Sentinel.C04
+open Sentinel.Iso
+
+/-! ## `pexit`: Exit with a panicking exit handler — exactly what the code (as it is) does, and its complement
+
+The gauge counts entries, so the leak is **one unit** per `pexit` (not the batch). `Op.ghost id` is what the driver runs for `pexit <id>`. -/
+
+/-- **as-is consequence, one step**: after any history, `pexit` of a live entry of `res` changes *nothing* observable except that the
+    handle is finished: every gauge keeps its value (so, compared with a normal `Exit` of the same entry, exactly one unit of `res` is
+    not given back and no other resource differs), the rules are untouched, nothing is printed. -/
+theorem pexit_leaks_exactly_one (h : List Op) (hb : histSize h < 2147483648) (id : Nat) (res : String)
+    (hlive : (id, res) ∈ (run {} h).1.live) :
+    (step (run {} h).1 (.ghost id)).1.gauge = (run {} h).1.gauge ∧
+    (step (run {} h).1 (.ghost id)).1.rules = (run {} h).1.rules ∧
+    (step (run {} h).1 (.ghost id)).2 = .none ∧
+    isLive (step (run {} h).1 (.ghost id)).1.live id = false ∧
+    (step (run {} h).1 (.ghost id)).1.gauge res = (step (run {} h).1 (.exit id)).1.gauge res + 1 ∧
+    (∀ x, x ≠ res → (step (run {} h).1 (.ghost id)).1.gauge x = (step (run {} h).1 (.exit id)).1.gauge x) := by
+  obtain ⟨⟨_, hl, _, hn⟩, _⟩ := reach h [] hb
+  have hres := resOfId_of_mem _ id res (by rw [hl]; exact hn) hlive
+  refine ⟨rfl, rfl, rfl, isLive_ghost _ _, ?_, ?_⟩
+  · simp only [step, hres, if_true]; omega
+  · intro x hx
+    simp only [step, hres, hx, if_false]
+
+/-- **for ever**: whatever happens afterwards — any ops on any resources, reloads, bursts, further ghosts — as long as no op names the
+    ghost's own id (the driver cannot: harness ids are below 2^40, `freshId` is not), the entry is still counted in flight. -/
+theorem pexit_leak_is_permanent (h later : List Op) (id : Nat) (res : String) (hlive : (id, res) ∈ (run {} h).1.live)
+    (hn : ∀ o ∈ later, namesId (freshId (run {} h).1.live) o = false) :
+    (freshId (run {} h).1.live, res) ∈ (run (step (run {} h).1 (.ghost id)).1 later).1.live := by
+  apply mem_run later _ _ _ _ hn
+  simp only [step, ghostLive]
+  exact List.mem_map.mpr ⟨(id, res), hlive, by simp⟩
+
+/-- the ghost's id really is out of the harness' reach -/
+theorem ghost_id_not_nameable (live : List (Nat × String)) : 1099511627776 ≤ freshId live := (foldl_max_ge live _).1
+
+/-- **complement**: on histories without `pexit` (all other ops of the driver: entries of any batch/type/direction, `exit [err]`,
+    `dexit`, `when ok|err` and `trace`/`clock`/`manyres` — no-ops of the model —, `load`/`sload`/`loadres`/`sloadres`/`clearres`/`poke`,
+    reads, `sched`/`par`/`soak`) the gauge of every resource is the number of live handles of that resource, and every one of them
+    is a handle the caller can still name and exit (its id is below the bound the harness' ids respect). -/
+theorem no_pexit_gauge_is_live_handles (h : List Op) (hb : histSize h < 2147483648) (B : Nat)
+    (hg : ∀ o ∈ h, isGhostOp o = false) (hi : ∀ o ∈ h, idsBelow B o) :
+    (∀ res, (run {} h).1.gauge res = inflight (run {} h).1.live res) ∧ ∀ p ∈ (run {} h).1.live, p.1 < B := by
+  refine ⟨fun res => gauge_eq_inflight h hb res, ?_⟩
+  obtain ⟨⟨_, hl, _, _⟩, _⟩ := reach h [] hb
+  rw [hl]
+  exact specRun_ids B h {} hg hi (by intro p hp; cases hp)
+
+/-! ## The repaired comparison agrees with ℕ unconditionally -/
+
+/-- **for ALL `uint32` gauge readings, batches and thresholds** the comparison of `35bb456` (`uint64(cur)+uint64(batch) > uint64(threshold)`)
+    is the comparison over ℕ — no side condition (the pinned `uint32` sum needed `cur + batch < 2^32`: `u32_agrees_without_wrap_partial`). -/
+theorem repaired_comparison_is_nat (c b t : UInt32) :
+    (c.toUInt64 + b.toUInt64 > t.toUInt64) ↔ c.toNat + b.toNat > t.toNat := cmp64_iff c b t
+
+/-- `checkPass` for **every** integer gauge below 2^32 (in particular the whole `int32` range, negative values included: they are clamped
+    to 0), every batch, every threshold, every rule list: pass ⇔ `max(g,0) + b ≤ N` over ℕ for all rules. -/
+theorem admit_iff_nat_any_gauge (rules : List Rule) (g : Int) (hg : g < 4294967296) (b : UInt32) :
+    checkPass rules g b = none ↔ ∀ r ∈ rules, g.toNat + b.toNat ≤ r.thr.toNat := by
+  by_cases h0 : 0 ≤ g
+  · obtain ⟨n, rfl⟩ := Int.eq_ofNat_of_zero_le h0
+    rw [checkPass_eq_spec rules n (by omega) b, Option.map_eq_none_iff, specCheck_none_iff]
+    simp
+  · have hneg : g < 0 := by omega
+    rw [negative_gauge_clamped rules g hneg b]
+    have : g.toNat = 0 := Int.toNat_of_nonpos (by omega)
+    rw [this]
+    have h := checkPass_eq_spec rules 0 (by omega) b
+    simp only [Nat.cast_zero] at h
+    rw [h, Option.map_eq_none_iff, specCheck_none_iff]
+
+end Sentinel.C04
